@@ -892,10 +892,16 @@ impl<'a> SkiplistIterator<'a> {
 
 impl LSMIterator for SkiplistIterator<'_> {
 	/// Seek to first entry >= target.
-	/// Target is an encoded internal key, we extract user_key for comparison.
+	/// Target is an encoded internal key: the user key positions the search, then the
+	/// versions of that user key which sort before the target (larger trailer = newer
+	/// sequence number) are passed over.
 	fn seek(&mut self, target: &[u8]) -> CrateResult<bool> {
 		let user_key = InternalKey::user_key_from_encoded(target);
 		self.seek_ge(user_key);
+		let target_trailer = InternalKey::trailer_from_encoded(target);
+		while self.is_valid() && self.key_bytes() == user_key && self.trailer() > target_trailer {
+			self.advance();
+		}
 		self.populate_encoded_key();
 		Ok(self.is_valid())
 	}
